@@ -1,6 +1,7 @@
 from dataclasses import Field
 from dataclasses import fields
 from typing import IO
+from typing import Final
 from typing import Literal
 from typing import TypeVar
 from typing import assert_never
@@ -85,6 +86,24 @@ def get_reader(
 
 T = TypeVar("T")
 
+types_without_null_form: Final = frozenset(
+    {
+        "int8",
+        "int16",
+        "int32",
+        "int64",
+        "uint8",
+        "uint16",
+        "uint32",
+        "uint64",
+        "float64",
+        "bool",
+        "error_code",
+        "timedelta_i32",
+        "timedelta_i64",
+    }
+)
+
 
 def get_field_reader(
     entity_type: type[Entity],
@@ -103,12 +122,18 @@ def get_field_reader(
 
     match field_class:
         case PrimitiveField():
+            kafka_type = get_schema_field_type(field)
+            optional = is_optional(field)
+            # A peer may send the null form explicitly also for a nullable tagged
+            # field, so these are read with the nullable reader. Tagged fields of a
+            # type without a null form (e.g. bool) keep the plain reader, their
+            # optionality is expressed through the absence of the tag alone.
+            if is_tagged_field and optional and kafka_type in types_without_null_form:
+                optional = False
             inner_type_reader = get_reader(
-                kafka_type=get_schema_field_type(field),
+                kafka_type=kafka_type,
                 flexible=flexible,
-                # A peer may send the null form explicitly also for a nullable
-                # tagged field, so these are read with the nullable reader.
-                optional=is_optional(field),
+                optional=optional,
             )
         case PrimitiveTupleField():
             inner_type_reader = get_reader(
